@@ -828,7 +828,7 @@ fn stack_replay(v: Value) -> Result<(), Fail> {
 // ------------------------------------------------------------------ coverage-guided lane (libFuzzer)
 
 fn fuzz_spec() -> crate::fuzzlane::FuzzSpec {
-    crate::fuzzlane::FuzzSpec { target: "hostile_frame", oracle: judge_decoder, seeds: crate::fuzzlane::seeds_frames, max_len: 512, runs_per_worker: 2000000 }
+    crate::fuzzlane::FuzzSpec { target: "hostile_frame", oracle: judge_decoder, seeds: crate::fuzzlane::seeds_frames, max_len: 512, runs_per_worker: 6000000 }
 }
 
 
